@@ -117,9 +117,11 @@ class TridonicDALIUSBDriver(DALIDriver):
         if len(frame) == 16:
             ty = DALI_USB_TYPE_16BIT
             ad, cm = frame.as_byte_sequence
+            # control byte 0x20 asks the interface to send the frame twice
+            ct = 0x20 if command.sendtwice else 0x0
             data = struct.pack(
                 "BBBBBBBB" + (64 - 8) * 'x',
-                dr, sn, 0x0, ty, 0x0, ec, ad, cm
+                dr, sn, ct, ty, 0x0, ec, ad, cm
             )
         elif len(frame) == 24:
             ty = DALI_USB_TYPE_24BIT
